@@ -1,6 +1,6 @@
 (** C09 - unknown keys: denied exactly and completely, otherwise ignored completely. *)
-From Deserr Require Import Base Pointer Kinds Value Prog Utf8 Scalars Types Deser Monitors Spec.
-From Deserr.proofs Require Import MiscProofs RefineFields FieldsSpec.
+From Deserr Require Import Base Pointer Kinds Value Prog Utf8 Scalars Types Deser Derive Monitors Spec.
+From Deserr.proofs Require Import MiscProofs RefineFields FieldsSpec DeriveProofs.
 
 (** without deny_unknown_fields, members whose key matches no field have no influence
     whatsoever: the run (result AND every call) is the run on the payload without them, for any
@@ -67,3 +67,22 @@ Check c09_denied_step : forall a fs keys l k v ms acc sts,
 Print Assumptions c09_ignored.
 Print Assumptions c09_denied_step.
 Print Assumptions c09_unknown_member_result.
+
+(** The accepted-keys list the derive builds is exactly the effective keys of the non-skipped
+    fields in declaration order - for every field list, however long and wherever its skipped
+    fields are: the sort that moves skipped fields to the end is stable. *)
+Theorem c09_accepted_keys : forall fs ra v,
+  named_vectors fs ra = Accept v ->
+  exists extra,
+    Forall2 (fun f x => fst x = f /\ read_fattrs (fd_attrs f) = Some (snd x)) fs extra
+    /\ v_keys v = map (fun x => key_name_for_ident (fd_ident (fst x)) ra (fa_rename (snd x)))
+                      (filter (fun x => negb (fa_skipped (snd x))) extra).
+Proof. exact named_vectors_keys. Qed.
+
+Check c09_accepted_keys : forall fs ra v,
+  named_vectors fs ra = Accept v ->
+  exists extra,
+    Forall2 (fun f x => fst x = f /\ read_fattrs (fd_attrs f) = Some (snd x)) fs extra
+    /\ v_keys v = map (fun x => key_name_for_ident (fd_ident (fst x)) ra (fa_rename (snd x)))
+                      (filter (fun x => negb (fa_skipped (snd x))) extra).
+Print Assumptions c09_accepted_keys.
